@@ -8,10 +8,12 @@ type Check struct {
 	ID    string
 	Level string
 	Run   func(r *ev.Rec)
+	// Sharded: run as one single-threaded process per core (every enum.Run of the check is dealt over the shards)
+	Sharded bool
 }
 
 var Registry = map[string]*Check{}
 
 func register(id, level string, run func(r *ev.Rec)) {
-	Registry[id] = &Check{ID: id, Level: level, Run: run}
+	Registry[id] = &Check{ID: id, Level: level, Run: run, Sharded: true}
 }
